@@ -543,6 +543,7 @@ class Engine:
         self.mode = mode
         self.values = dict(values or {})
         self.script = list(choices or [])
+        self.script_mode = choices is not None
         self.max_concretize = max_concretize
         self.stats = dict(paths=0, sat=0, unsat=0, unknown=0, branches=0, forks=0,
                           proved=0, proved_trivial=0, solver_s=0.0, choices=0,
@@ -555,6 +556,9 @@ class Engine:
         self.format_hook = lambda v, spec: format(repr(v), "")
         self.on_path_end = None
         self.user = {}
+        self.var_bounds = {}
+        if mode == "conc":
+            self.trail, self.pos = [], 0
         if mode == "sym":
             self.solver = z3.Solver()
             self.solver.set("timeout", timeout_ms)
@@ -579,6 +583,7 @@ class Engine:
             return v
         if name in self.vars:
             raise EngineFault(f"duplicate symbolic variable {name}")
+        self.var_bounds[name] = (lo, hi)
         v = self.var_cache.get((name, real))
         if v is None:
             v = z3.Real(name) if real else z3.Int(name)
@@ -595,8 +600,18 @@ class Engine:
         if n <= 0:
             raise EngineFault("choice from empty range")
         if self.mode == "conc":
-            d = self.script[len(self.choice_log)]
-            assert 0 <= d < n, (d, n, label)
+            if self.script_mode:
+                d = self.script[len(self.choice_log)]
+                assert 0 <= d < n, (d, n, label)
+                self.choice_log.append(d)
+                return d
+            # exhaustive concrete exploration of the choices (degraded-path fallback)
+            if self.pos < len(self.trail):
+                d = self.trail[self.pos][0]
+            else:
+                self.trail.append([0, n])
+                d = 0
+            self.pos += 1
             self.choice_log.append(d)
             return d
         if self.pos < len(self.trail):
@@ -848,6 +863,30 @@ class Engine:
         except PathAbort:
             pass
         return self.obs
+
+    def explore_concrete(self, fn, deadline=None):
+        """conc mode without a script: run fn for every combination of choices."""
+        assert self.mode == "conc" and not self.script_mode
+        self.trail = []
+        n = 0
+        while True:
+            self.pos = 0
+            self.obs, self.choice_log = [], []
+            try:
+                fn(self)
+            except PathAbort:
+                pass
+            except Unsupported:
+                pass
+            n += 1
+            while self.trail:
+                d, k = self.trail[-1]
+                if d + 1 < k:
+                    self.trail[-1] = [d + 1, k]
+                    break
+                self.trail.pop()
+            if not self.trail or (deadline is not None and time.time() > deadline):
+                return n
 
     def explore(self, fn, validate=None, deadline=None):
         """Run fn once per feasible path. validate(values, choices) -> list of
